@@ -1,8 +1,24 @@
 # Run table and MANIFEST text for C18 (see ../check and ../tools/gen_manifest.py).
 SPEC = dict(
     level="exploration",
-    rule="placeholder",
-    assumptions=[],
+    rule="rapid-generated sequences against a real, never-started PDCoordinator wired to an in-memory register (epochs / compare-and-swap honoured, read cache refreshed like the etcd register's) "
+         "and to loopback HTTP servers playing the data nodes (their port is part of the node id, so IsRaftNodeSynced / IsAllISRFullReady / IsRaftNodeJoined run unchanged). "
+         "Start: replication 1-5, 1-3 partitions, 3-8 nodes, any layout that satisfies the invariants (quorum, <=1 removal pending, <= replica+1 replicas, arbitrary ids <= MaxRaftID). "
+         "Then 5-60 steps drawn from: node down / up / register session lost / unreachable for the coordinator / new node / node marked for decommission; probe answers per (node, partition): synced yes/no, "
+         "member view applied / including the removing replica / lagging one write / namespace not loaded; register faults: CAS failure, write error, commit with lost reply, scan error, remote read error, cache refresh; "
+         "coordinator actions: full and single-partition doCheckNamespaces pass, handleNamespaceMigrate, removeNamespaceFromRemovings, balance round (rebalanceNamespace), decommission round (processRemovingNodes), "
+         "addNamespaceToNode / removeNamespaceFromNode under the gates of their automatic callers, and the operator API RemoveNamespaceFromNode. "
+         "The oracle runs inside the register on every accepted UpdateNamespacePartReplicaInfo. "
+         "distinct_nontrivial counts distinct sequences with >=2 accepted writes one of which newly marks a removal while another replica of that partition (not the marked one) is down (unregistered or not answering) or answers 'not synced'.",
+    assumptions=[
+        "the namespace's Replica setting is constant inside a sequence (ChangeNamespaceMetaParam is not an event): after raising it the stored layout can already be below the new quorum and addNamespaceToNode, which has no quorum test of its own, may legitimately write such a layout",
+        "'unreachable' in the last clause means: the replica's node does not answer the coordinator's HTTP probes; a node that lost its register session but still answers is reachable. The clause is not asserted for writes made through the operator API RemoveNamespaceFromNode, which takes no liveness input by design",
+        "'report being in sync' means: every remaining replica (RaftNodes minus Removings) of the replaced value answers the israftsynced probe with OK at the time of the write",
+        "addNamespaceToNode / removeNamespaceFromNode have no gates of their own for sync state; they are invoked only the way their callers invoke them: through the real balance / decommission / check-pass code, or directly after the same tests those callers make (no removal pending, remaining replicas <= replica resp. > replica, IsAllISRFullReady)",
+        "the register's node watch is replaced by VerifSetDataNodes, which applies the state changes of handleDataNodes for one watch event; the two wait intervals are set to 0 by hook; the hard-coded 10 ms sleep of doCheckNamespaces is slept; the hard-coded 5 s waits of balance / decommission rounds are cut by closing the monitor channel (coordinator loses leadership) at the round's first write attempt, so a round performs at most one write",
+        "at most one node is marked for decommission at a time; with more than one partition the coordinator visits partitions in Go map order, so a failing multi-partition sequence may not replay identically (the failure message carries the complete trace)",
+        "while known finding C18-placement-panic-live-nodes-all-in-row is open, coordinator actions whose layout call would panic are skipped (counted as excluded_by_known_finding)",
+    ],
     quick=[
         dict(name="sequences", pkg="c18_migration", test="TestMigrationSequences", checks=700, shards=16),
         dict(name="known", pkg="c18_migration", test="TestKnown.*", checks=1, shards=1),
@@ -12,4 +28,11 @@ SPEC = dict(
         dict(name="known", pkg="c18_migration", test="TestKnown.*", checks=1, shards=1),
     ],
 )
-TEXT = dict(engine="pd-coordinator", design_ref="DESIGN.md §4 C18", technique="", level_text="", level_note="")
+
+TEXT = dict(
+    engine="pd-coordinator",
+    design_ref="DESIGN.md §4 C18",
+    technique="property-based testing (rapid): generated event / probe-answer / register-fault / action sequences drive the real decision methods of the placement-driver coordinator through verif-tagged wrappers; invariant oracle over every metadata write the in-memory register accepts, relative to the value it replaces",
+    level_text="Generated-input exploration: thousands of sequences per run; every accepted PartitionReplicaInfo is checked for: at most one removal pending; remaining replicas distinct and a strict majority of the replication factor; at most one replica added per write and only while every remaining replica answers 'synced'; replica ids unique and every new id above all ids ever seen for the partition; no removal newly marked while more than half of the replicas do not answer. No absence claim.",
+    level_note="Trusted: the in-memory register (CAS on epochs, cache semantics modelled on register_etcd.go) and the harness data nodes' answers. Seams: VerifSetDataNodes mirrors handleDataNodes; balance / decommission rounds are cut after their first write by closing the monitor channel; the learner coordinator, namespace creation and Replica changes are not driven. The coordinator's goroutines never run, so races between its loops are outside this check.",
+)
